@@ -6,7 +6,7 @@ From Quiver Require Import Types Rel Sem Narrow Oracle.
 Extraction Language OCaml.
 Extraction "extracted/types_model.ml"
   new_registry register_tuple register_type lookup_type lookup_tuple
-  legacy_cfg f7_cfg fixed_cfg check_rel is_compatible_with types_overlap_with
+  legacy_cfg f7_cfg fixed_cfg partial_cfg current_cfg check_rel is_compatible_with types_overlap_with
   union_type_ids intersect_types compute_complement filter_variants_by_field
   closedb cycle_freeb enum_inhab inhabb
   cex_sound cex_disjoint cex_intersect cex_complement count.
